@@ -119,7 +119,12 @@ def gen_history(rng, length):
     for _ in range(length):
         x = rng.random()
         if x < 0.55:
-            hist.append(["S", int(rng.integers(len(REQS)))])
+            op = ["S", int(rng.integers(len(REQS)))]
+            if rng.random() < 0.5:
+                # the same request shape at the other (or the same) storage precision: shared per-grid state must not
+                # carry anything precision-dependent from one solve to the next
+                op.append(str(rng.choice(["single", "double"])))
+            hist.append(op)
         elif x < 0.8:
             hist.append(["T", int(rng.integers(1, 9))])
         elif x < 0.9:
@@ -161,8 +166,8 @@ def check_history(hist, real):
         if op[0] != "S":
             continue
         i = op[1]
-        prec = REQS[i]["prec"]
-        key = (i, threads)
+        prec = op[2] if len(op) > 2 else REQS[i]["prec"]
+        key = (i, threads, prec)
         if key in first and first[key] != rec["sha"]:
             return fail("C12/repeat-not-bit-identical", "repeating a solve with the same thread setting in one process is not bit-identical",
                         None, first[key][:16], rec["sha"][:16], 0)
@@ -204,6 +209,9 @@ def run(rng, tier, deep):
     st = new_stats()
     hists = [gen_history(rng, int(rng.integers(2, 11))) for _ in range(budget(tier, deep, 10, 60))]
     hists.append([["T", 4], ["S", 0], ["T", 1], ["S", 0], ["Z"], ["S", 0], ["T", 8], ["S", 1], ["S", 1], ["W"], ["S", 1]])
+    for i in (0, 1, 5) if tier == "quick" else range(len(REQS)):
+        hists.append([["S", i, "single"], ["S", i, "double"], ["S", i, "single"], ["S", i, "double"]])
+        hists.append([["S", i, "double"], ["S", i, "single"], ["S", i, "double"]])
     with ThreadPoolExecutor(max_workers=8) as ex:
         reals = list(ex.map(run_real, hists))
     outs = run_driver([model_line(h) for h in hists])
